@@ -26,7 +26,19 @@ def value_py(v, k=0):
     raise ValueError(v)
 
 
-def lit_text(l, k=0):
+def has_enum_literal(l):
+    t = l["t"]
+    if t == "enum":
+        return True
+    if t == "list":
+        return any(has_enum_literal(x) for x in l["v"])
+    if t == "obj":
+        return any(has_enum_literal(x) for _k, x in l["v"])
+    return False
+
+
+def lit_text(l, k=0, enum_as_string=False):
+    """enum_as_string=True spells every enum value as a STRING literal ("X" for X): never a legal enum literal"""
     t = l["t"]
     v = l.get("v")
     if t == "null":
@@ -34,16 +46,16 @@ def lit_text(l, k=0):
     if t == "var":
         return "$" + v
     if t == "enum":
-        return ENUM_NAME.get(v, v)
+        return ('"%s"' if enum_as_string else "%s") % ENUM_NAME.get(v, v)
     if t == "str" and v in ENUM_NAME:
         return '"%s"' % ENUM_NAME[v]
     if t in ("int", "float", "str", "bool"):
         kind = {"int": "IntValue", "float": "FloatValue", "str": "StringValue", "bool": "BooleanValue"}[t]
         return tokens.literal_text(kind, v, k)
     if t == "list":
-        return "[" + ", ".join(lit_text(x, k) for x in v) + "]"
+        return "[" + ", ".join(lit_text(x, k, enum_as_string) for x in v) + "]"
     if t == "obj":
-        return "{" + ", ".join("%s: %s" % (key, lit_text(x, k)) for key, x in v) + "}"
+        return "{" + ", ".join("%s: %s" % (key, lit_text(x, k, enum_as_string)) for key, x in v) + "}"
     raise ValueError(l)
 
 
